@@ -44,11 +44,12 @@
   | hover.go:225, 447                                  | collect keys                                | sort.Strings        | I       | sortStrings      |
   | index.go:138-157 addFileIndex counts               | counts[k] += v                              | —                   | I       | mergeCounts      |
   | index.go:158 addFileIndex transactionsByKey        | byKey[k] = append(byKey[k], entry) per file | no                  | D via caller order | indexTxFiles |
-  | index.go:164 addFileIndex payeeTemplates           | templates[payee] = postings (last file added wins) | no           | D via caller order | indexTemplates |
+  | index.go:164 addFileIndex payeeTemplates           | templates[payee] = postings (last file added wins) | no           | D via caller order | indexTemplatesIn |
+  | index.go restorePayeeTemplate (upstream f525407)    | best = smallest path among files having the payee | min is order-free | I   | bestPath, indexTemplates |
   | index.go:172-201 removeFileIndex                   | decrement / delete                          | —                   | I       | (commutative; not exercised) |
   | index.go:238 buildTagValues, 260 sortedKeys        | collect keys                                | sort.Strings        | I       | sortStrings      |
   | index.go:286-345 clone*/copy*                      | clone[k] = copy(v)                          | —                   | I       | (distinct keys)  |
-  | workspace.go:268 buildIndexFromResolvedLocked      | SetFileIndex(path) for each included file   | no                  | D (fix) | indexTemplates, indexTxFiles |
+  | workspace.go:268 buildIndexFromResolvedLocked      | SetFileIndex(path) for each included file   | no                  | D (fix) | indexTemplatesIn, indexTxFiles |
   | workspace.go:342 removeUnreachableLocked           | collect unreachable paths, then remove each | removal commutes    | I       | (not modelled further) |
   | workspace.go:364 addMissingReachableLocked         | SetFileIndex + FileOrder = addString(FileOrder, path) | no        | D (fix) | addMissing, templatesAfterAdd |
   | loader.go:249 maps.Copy(result.Files, sub.Files)   | dst[k] = v                                  | —                   | I       | (distinct keys)  |
@@ -145,15 +146,35 @@ def templatesFromResolved {τ : Type} (order : List (Entries String τ)) (primar
     String → Option τ :=
   mergeTemplates (order.foldl mergeTemplates (fun _ => none)) primary
 
-/-- workspace.go:256-272 `buildIndexFromResolvedLocked` + index.go:164-166: the root file is
-    indexed first, then every included file in map order; a later file overwrites. -/
+/-- PINNED tree (before 96b0f57 / f525407): workspace.go:256-272 `buildIndexFromResolvedLocked` +
+    index.go:164-166: the root file is indexed first, then every included file in map order; a
+    later file overwrites ("last file added wins").  Kept for the counterexample and for the
+    correspondence's set of outputs the pinned code can produce. -/
 def indexTemplatesIn {τ : Type} (root : Entries String τ) (σ : Entries String (Entries String τ)) :
     String → Option τ :=
   σ.foldl (fun m f => mergeTemplates m f.2) (mergeTemplates (fun _ => none) root)
 
-def indexTemplates {τ : Type} (root : Entries String τ) (σ : Entries String (Entries String τ)) :
-    String → Option τ :=
-  indexTemplatesIn root (sortedEntries σ)
+/-- Repaired tree, index.go `restorePayeeTemplate` (f525407), loop body
+    `if _, ok := other.PayeeTemplates[payee]; ok && (best == "" || path < best) { best = path }`
+    over `range idx.fileIndexes` (the root file is one of the indexed files, under its own path). -/
+def bestPathStep {τ : Type} (payee : String) (best : String) (f : String × Entries String τ) : String :=
+  if f.2.any (·.1 == payee) && (best == "" || decide (f.1 < best)) then f.1 else best
+
+def bestPath {τ : Type} (σ : Entries String (Entries String τ)) (payee : String) : String :=
+  σ.foldl (bestPathStep payee) ""
+
+/-- `m[k]` on a map given by its entries -/
+def lookup {ν : Type} (σ : Entries String ν) (k : String) : Option ν := (σ.find? (·.1 == k)).map (·.2)
+
+/-- The payee templates of the workspace index once all files `σ` (= `idx.fileIndexes`, in
+    whatever order the map is ranged over) are indexed: for every payee the template of the
+    indexed file with the smallest path that has one.  (`addFileIndex` calls
+    `restorePayeeTemplate` for each payee of the added file, `removeFileIndex` for each payee of
+    the removed one, so after any sequence of adds/removes the stored template is this function
+    of the set of indexed files.) -/
+def indexTemplates {τ : Type} (σ : Entries String (Entries String τ)) (payee : String) : Option τ :=
+  let best := bestPath σ payee
+  if best == "" then none else (lookup σ best).bind (fun f => lookup f payee)
 
 /-- index.go:158-160 `transactionsByKey[key] = append(…, entry)`: the files (by path) holding a
     transaction with this key, root first, then in the order the files were indexed. -/
